@@ -5,6 +5,7 @@ import (
 	"go/constant"
 	"go/token"
 	"go/types"
+	"hash/fnv"
 	"os"
 	"sort"
 	"strings"
@@ -1244,11 +1245,12 @@ func (e *Enc) callAsserts(fr *Frame, short string, n int, args []Val, st *State,
 			continue
 		}
 		// #n counts the call sites of the callee in source order (not in the order the blocks happen
-		// to be visited)
-		if ord := e.siteOrdinal(fr.fn, site, ca.Callee); ord > 0 {
-			n = ord
+		// to be visited); an anchor, when present, identifies the site by its source line
+		if !e.matchCut(fr.fn, ca, site) {
+			continue
 		}
-		if ca.N == n {
+		n = ca.N
+		{
 			henv := e.hostEnv(fr)
 			for i, a := range args {
 				henv.vars[fmt.Sprintf("callarg%d", i)] = a
@@ -1478,4 +1480,92 @@ func (e *Enc) globalStateWrite(fr *Frame, key string, c *ssa.CallCommon, rb Term
 	if g, ok := root.(*ssa.Global); ok {
 		e.ob(fr, "wframe", e.nextName(fr, "wframe"), rb, "false", "write to package-level state "+g.Name()+" through "+shortKey(key), sitePos(site))
 	}
+}
+
+// ---- cut-point sites -------------------------------------------------------------------------
+
+// cutSites: the candidate sites of a cut point in fn, in source order.
+func (e *Enc) cutSites(fn *ssa.Function, kind, pattern string) []ssa.Instruction {
+	var sites []ssa.Instruction
+	pat := sanitize(pattern)
+	fieldName := func(f *ssa.FieldAddr) string {
+		pt, ok := f.X.Type().Underlying().(*types.Pointer)
+		if !ok {
+			return ""
+		}
+		u, ok := pt.Elem().Underlying().(*types.Struct)
+		if !ok {
+			return ""
+		}
+		return u.Field(f.Field).Name()
+	}
+	for _, b := range fn.Blocks {
+		for _, in := range b.Instrs {
+			switch kind {
+			case "call":
+				ci, ok := in.(ssa.CallInstruction)
+				if !ok {
+					continue
+				}
+				cc := ci.Common()
+				key := ""
+				if cc.IsInvoke() {
+					key = ifaceMethodKey(cc.Value.Type(), cc.Method)
+				} else if f := cc.StaticCallee(); f != nil {
+					key = fnKey(f)
+				} else {
+					continue
+				}
+				if strings.HasSuffix(shortKey(key), pat) {
+					sites = append(sites, in)
+				}
+			case "return":
+				if _, ok := in.(*ssa.Return); ok {
+					sites = append(sites, in)
+				}
+			case "store":
+				if st, ok := in.(*ssa.Store); ok {
+					if fa, ok := st.Addr.(*ssa.FieldAddr); ok && fieldName(fa) == pattern {
+						sites = append(sites, in)
+					}
+				}
+			}
+		}
+	}
+	sort.SliceStable(sites, func(i, j int) bool { return sites[i].Pos() < sites[j].Pos() })
+	return sites
+}
+
+// siteAnchors: for each site the hash of its (whitespace-normalised) source line plus the occurrence
+// number among the sites with the same line text.
+func (e *Enc) siteAnchors(sites []ssa.Instruction) []string {
+	out := make([]string, len(sites))
+	seen := map[string]int{}
+	for i, s := range sites {
+		if !s.Pos().IsValid() {
+			continue
+		}
+		p := e.w.fset.Position(s.Pos())
+		h := fnv.New32a()
+		h.Write([]byte(strings.Join(strings.Fields(e.w.lineText(p.Filename, p.Line)), " ")))
+		k := fmt.Sprintf("%08x", h.Sum32())
+		seen[k]++
+		out[i] = fmt.Sprintf("%s.%d", k, seen[k])
+	}
+	return out
+}
+
+// matchCut: is `site` the site the cut point talks about? With an anchor: the site whose source line
+// has that hash (robust against insertions and deletions elsewhere in the function); if no site has
+// it (the line itself was edited), or without an anchor: the N-th site in source order.
+func (e *Enc) matchCut(fn *ssa.Function, ca CutAssert, site ssa.Instruction) bool {
+	sites := e.cutSites(fn, ca.Kind, ca.Callee)
+	if ca.Anchor != "" {
+		for i, a := range e.siteAnchors(sites) {
+			if a == ca.Anchor {
+				return sites[i] == site
+			}
+		}
+	}
+	return ca.N >= 1 && ca.N <= len(sites) && sites[ca.N-1] == site
 }
